@@ -6,6 +6,7 @@ import Proofs.C04_Lemmas
 import Proofs.C04_Reps
 import Proofs.C04_Index
 import Proofs.C04_Count
+import Proofs.C04_Identity
 import Mathlib.Tactic.Ring
 import Mathlib.Tactic.Linarith
 import Mathlib.Tactic.Positivity
@@ -352,6 +353,34 @@ theorem rotate_check_passes (fl : K → Int) (hfl : ∀ x, fl x = ⌊x⌋) (b : 
   rw [h]
   simp only
   rw [if_pos (rotateRaw_length fl hfl b hV U atoms hin _ _ h)]
+
+/-- **The identity shortcut is the general path.**  `rotate` with `uvws = identity` returns the system itself
+    (cell re-expressed at the Cartesian origin, every atom moved by whole cell vectors into it); for atoms inside
+    the box this is, up to the order of the atoms, what the bounding-supercell path returns. -/
+theorem rotate_identity_shortcut (fl : K → Int) (hfl : ∀ x, fl x = ⌊x⌋) (b : Box K) (hV : M3.det b.vects ≠ 0)
+    (atoms : List (Atom K)) (hin : ∀ a ∈ atoms, InCell (b.cartToRel a.pos)) :
+    rotate fl b M3.one atoms = .ok (rotateIdentity fl b atoms) ∧
+    ∃ kept, rotateChecked fl b M3.one atoms = .ok ((rotateIdentity fl b atoms).1, kept) ∧
+      kept.Perm (rotateIdentity fl b atoms).2 := by
+  refine ⟨by simp [rotate], ?_⟩
+  obtain ⟨kept, h, hp⟩ := rotateRaw_one fl hfl b hV atoms hin
+  refine ⟨kept, ?_, hp⟩
+  unfold rotateChecked
+  rw [h]
+  simp only
+  rw [if_pos (rotateRaw_length fl hfl b hV M3.one atoms hin _ _ h)]
+
+/-- `rotate` (the whole model: shortcut, supercell, filter, count test) succeeds for every integer `U` with
+    `det U ≠ 0` on atoms inside a non-degenerate box, and returns `|det U| · natoms` atoms. -/
+theorem rotate_ok (fl : K → Int) (hfl : ∀ x, fl x = ⌊x⌋) (b : Box K) (hV : M3.det b.vects ≠ 0) (U : M3 Int)
+    (hU : M3.det U ≠ 0) (atoms : List (Atom K)) (hin : ∀ a ∈ atoms, InCell (b.cartToRel a.pos)) :
+    ∃ r, rotate fl b U atoms = .ok r ∧ r.2.length = (M3.det U).natAbs * atoms.length := by
+  by_cases h1 : U = M3.one
+  · subst h1
+    refine ⟨_, (rotate_identity_shortcut fl hfl b hV atoms hin).1, ?_⟩
+    simp [rotateIdentity, det_one]
+  · obtain ⟨kept, _, h2, h3⟩ := rotate_check_passes fl hfl b hV U hU atoms hin
+    exact ⟨_, by simp only [rotate, if_neg h1]; exact h2, h3⟩
 
 end count
 
